@@ -417,7 +417,12 @@ def write_xml_folder(root, kind, pos, target):
         f.write(ET.tostring(idx, encoding="unicode"))
     for n, k, refid in comps:
         members = [] if k in ("namespace", "file", "group", "dir") else [mk_member("set", [("key", False)], "set of %s" % n, pdocs=True),
-                                                            mk_member("get", [], "get of %s" % n)]
+                                                            mk_member("dup", [("key", False)], "dup first"), mk_member("dup", [("key", False)], "dup second"),
+                                                            mk_member("dup", [("key", False)], "dup third"), mk_member("get", [], "get of %s" % n)]
+        # what real Doxygen output carries on every member: the place of the declaration.  The three indistinguishable `dup`
+        # overloads stand in lines 9, 10 and 100 — document order is numeric order, not the order of the attribute strings
+        for md, line in zip(members, ("8", "9", "10", "100", "101")):
+            ET.SubElement(md, "location", {"file": "include/ns/Params.h", "line": line, "column": "5", "declfile": "include/ns/Params.h", "declline": line})
         with open(os.path.join(root, refid + ".xml"), "w") as f:
             f.write(_compound_file(n, refid, k, members))
 
@@ -454,6 +459,13 @@ def c17_xml_folder(kind: int, pos: int, target: int) -> bool:
                 got = "raised %r" % ex
             if got != "get of %s" % name:
                 problems.append("%s::get(): docstring %r" % (name, got))
+            for want in ("dup first", "dup second", "dup third"):
+                try:
+                    got = xp.extract_docstring(d, name, "dup", ["key"])
+                except Exception as ex:
+                    got = "raised %r" % ex
+                if got != want:
+                    problems.append("%s::dup(key), indistinguishable overloads in document order: docstring %r, documented %r" % (name, got, want))
         finally:
             shutil.rmtree(d, ignore_errors=True)
         ok = not problems or _fail(kind=KINDS[kind], position=pos, target=name, problems=problems)
